@@ -1,7 +1,8 @@
 ---------------------------------- MODULE TraceTags ----------------------------------
 (* C11: tag selectors capture exactly the bindings that carry the tag.                    *)
 (* Generated function (harness/drivers/tag_driver.py), called with p = 3, q = 5:          *)
-(*    def t(p: Tp, q: Tq) -> Tr:  a: Ta = p + 1; b = q + 2; a = a + b; c: Tc = a * 2      *)
+(*    def t(p: Tp, q: Tq, *rest: Trest, **kw: Tkw) -> Tr:                                  *)
+(*                                a: Ta = p + 1; b = q + 2; a = a + b; c: Tc = a * 2      *)
 (*                                b: Tb2 = b + 1; c: Tc2 = c + 1; p: Tp2 = p + 1           *)
 (* Bindings in order: p, q, a (annotated), b (plain), a (plain re-assignment), c, then b    *)
 (* annotated after a plain binding, c annotated a second time, the parameter p re-annotated.*)
@@ -10,11 +11,12 @@ Cases == JsonDeserialize(IOEnv.TRACE_FILE)
 VARIABLES cid, done
 S(x) == {x[i] : i \in DOMAIN x}
 \* <<name, value, tag set>> of every binding, in execution order
-Bindings(cfg) == << <<"p", 3, S(cfg.p)>>, <<"q", 5, S(cfg.q)>>, <<"a", 4, S(cfg.a)>>, <<"b", 7, {}>>, <<"a", 11, {}>>, <<"c", 22, S(cfg.c)>>,
+\* (the variadic parameters *rest and **kw are bound after the others; their values - an empty tuple, an empty dict - are logged as -1)
+Bindings(cfg) == << <<"p", 3, S(cfg.p)>>, <<"q", 5, S(cfg.q)>>, <<"rest", 0 - 1, S(cfg.rest)>>, <<"kw", 0 - 1, S(cfg.kw)>>, <<"a", 4, S(cfg.a)>>, <<"b", 7, {}>>, <<"a", 11, {}>>, <<"c", 22, S(cfg.c)>>,
                     <<"b", 8, S(cfg.b2)>>, <<"c", 23, S(cfg.c2)>>, <<"p", 4, S(cfg.p2)>> >>
 Selected(cfg, T, v) == SelectSeq(Bindings(cfg), LAMBDA b : T \in b[3] /\ (v = "" \/ b[1] = v))
 AnyTagged(cfg, T, v) == Selected(cfg, T, v) # <<>>
-Names == {"p", "q", "a", "b", "c"}
+Names == {"p", "q", "a", "b", "c", "rest", "kw"}
 \* stream entries: <<key, name, value>> triples (raw mode reports the variable's real name)
 GotFor(c, key) == LET s == SelectSeq(c.stream, LAMBDA r : \E j \in DOMAIN r : r[j][1] = key /\ r[j][2] \in Names)
                   IN [i \in DOMAIN s |-> LET j == CHOOSE j \in DOMAIN s[i] : s[i][j][1] = key IN <<s[i][j][2], s[i][j][3]>>]
@@ -23,6 +25,7 @@ Want(cfg, T, v) == LET s == Selected(cfg, T, v) IN [i \in DOMAIN s |-> <<s[i][1]
 \* one - and generic / named tag captures are registered from that table, so an earlier binding of the same
 \* variable that carries T is not captured when the variable's last annotation lacks T
 LastTags(cfg, v) == CASE v = "p" -> S(cfg.p2) [] v = "q" -> S(cfg.q) [] v = "a" -> S(cfg.a) [] v = "b" -> S(cfg.b2) [] v = "c" -> S(cfg.c2)
+                      [] v = "rest" -> S(cfg.rest) [] v = "kw" -> S(cfg.kw)
 WantLW(cfg, T, v) == LET s == SelectSeq(Selected(cfg, T, v), LAMBDA b : T \in LastTags(cfg, b[1])) IN [i \in DOMAIN s |-> <<s[i][1], s[i][2]>>]
 AllBinds(cfg) == [i \in DOMAIN Bindings(cfg) |-> <<Bindings(cfg)[i][1], Bindings(cfg)[i][2]>>]
 \* tag algebra with object identity (A level of TagHeap.tla): the heap of denotations after the first k operations
@@ -54,14 +57,14 @@ Verdicts(c) ==
          (IF c.outcome # "ok" THEN {"WronglyRefused"} ELSE {}) \cup
          (IF c.outcome = "ok" /\ GotFor(c, "x") # AllBinds(c.cfg) THEN {"GenericSeesEveryBinding"} ELSE {})
     [] c.kind = "ctx" ->
-         \* f($x:@T) > c : one event per binding of c (positions 6 and 8) carrying the latest tagged binding so far
+         \* f($x:@T) > c : one event per binding of c (positions 8 and 10) carrying the latest tagged binding so far
          \* (the binding of c itself counts when it carries the tag), omitted when there is none yet
          LET B == Bindings(c.cfg)
              Tagged(k, lw) == {i \in 1..k : c.T \in B[i][3] /\ (~lw \/ c.T \in LastTags(c.cfg, B[i][1]))}
              At(k, lw) == IF Tagged(k, lw) = {} THEN <<"-", 0>>
                           ELSE LET m == CHOOSE i \in Tagged(k, lw) : \A j \in Tagged(k, lw) : j <= i IN <<B[m][1], B[m][2]>>
-             want == <<At(6, FALSE), At(8, FALSE)>>
-             wantLW == <<At(6, TRUE), At(8, TRUE)>>
+             want == <<At(8, FALSE), At(10, FALSE)>>
+             wantLW == <<At(8, TRUE), At(10, TRUE)>>
              XOf(r) == LET J == {j \in DOMAIN r : r[j][1] = "x"} IN IF J = {} THEN <<"-", 0>> ELSE LET j == CHOOSE j \in J : TRUE IN <<r[j][2], r[j][3]>>
              got == [i \in DOMAIN c.stream |-> XOf(c.stream[i])]
              should == AnyTagged(c.cfg, c.T, "")
